@@ -6,13 +6,14 @@ pids="$@"
 if [ -z "$pids" ]; then pids=$(echo $name | cut -d- -f1); fi
 cd /repo
 if ! git diff --quiet; then echo "REPO DIRTY"; exit 2; fi
-if ! git apply --3way /verif/seeded/$name/patch.diff 2>/tmp/apply.err; then
-  if ! git apply /verif/seeded/$name/patch.diff 2>>/tmp/apply.err; then echo "PATCH-DOES-NOT-APPLY"; cat /tmp/apply.err | head -5; git checkout -- . ; git reset -q; exit 3; fi
+P=/verif/seeded/$name/patch.diff
+if [ -f /verif/seeded/$name/patch.rebased.diff ]; then P=/verif/seeded/$name/patch.rebased.diff; fi
+if ! git apply $P 2>/tmp/apply.err; then
+  echo "PATCH-DOES-NOT-APPLY ($P)"; head -5 /tmp/apply.err; git reset -q --hard HEAD; exit 3
 fi
-git reset -q
 cd /verif
 for p in $pids; do
   timeout 1500 ./kv check $p --tier quick 2>&1 | tail -4
   echo "exit=$? ($name vs $p)"
 done
-cd /repo; git checkout -- .; git status --short | head -3
+cd /repo; git reset -q --hard HEAD; git status --short | head -3
